@@ -26,6 +26,8 @@ def run(ctx):
     simrules.merged_state_rule(ctx, 'C01.g')
     simrules.integer_digit_rule(ctx, 'C01.h')
     simrules.factoring_rule(ctx, 'C01.i')
+    simrules.named_initial_state_rule(ctx, 'C01.l')
+    ctx.decided.append('C01.l a ProductState initial state is written in the qubit order of the simulation before it becomes a bare vector')
     shared.qudit_blind_dispatch_rule(ctx, 'C01.j', ['cirq-core/cirq/sim/'], floor=2)
     ctx.decided.append('C01.j simulator code that recognises X/Z power gates by class looks at their dimension (qudit X is not a bit flip)')
     ctx.decided.append('C01.i the linalg factoring helpers behind the product-state container split product tensors along any ordered choice of axes and refuse entangled ones')
